@@ -5,6 +5,7 @@ package query
 
 import (
 	"slices"
+	"strings"
 
 	. "github.com/apmckinlay/gsuneido/core"
 	"github.com/apmckinlay/gsuneido/db19/index"
@@ -268,7 +269,7 @@ func (tbl *Table) Lookup(_ *Thread, sels Sels) Row {
 		key = selOrg(tbl.indexEncode, ix.Fields, sels, true)
 		if len(ix.Ixspec.Fields2) > 0 && key == "" {
 			fullFields := set.Union(ix.Fields, ix.BestKey)
-			key = selOrg(true, fullFields, sels, true)
+			key = selKeyNoTrim(fullFields, sels)
 		}
 	}
 	return tbl.LookupRaw(key)
@@ -408,6 +409,23 @@ func selOrg(encode bool, dstCols []string, sels Sels, full bool) string {
 	}
 	assert.That(data)
 	return enc.String()
+}
+
+// selKeyNoTrim is like selOrg (encoded and full) but it does not trim
+// trailing empty values, to match ixkey.Spec.Key when it uses Fields2
+func selKeyNoTrim(dstCols []string, sels Sels) string {
+	var sb strings.Builder
+	for i, col := range dstCols {
+		val, ok := sels.Get(col)
+		if !ok {
+			panic("selOrg not full")
+		}
+		if i > 0 {
+			sb.WriteString(ixkey.Sep)
+		}
+		sb.WriteString(ixkey.Encode(val))
+	}
+	return sb.String()
 }
 
 func (tbl *Table) SelectRaw(org, end string) {
